@@ -458,11 +458,20 @@ def main():
                     if md[0].get("system_timestamp", 0) > md[1].get("system_timestamp", 0):
                         violation("arrival-order", f"scenario {r.name}: the receptions of {x1['hex']} are not listed in arrival order: {[m.get('system_timestamp') for m in md]}", {"scenarios": [r.name]})
     if pid == "C07":
+        # the fields of a record are a function of its frame: whatever was received before, the same reception is
+        # written with the same members (time stamp, receiver data and the position attached by the trajectory
+        # decoder aside)
+        seen = {}
         for r in started:
-            if r.all is None:
-                continue
-            # nothing more here: the REST bodies were parsed by the same strict reader in rest()
-            pass
+            for n, rec, _ in parsed[r.name]:
+                core = {k: v for k, v in rec.items() if k not in ("timestamp", "metadata", "latitude", "longitude")}
+                key = rec.get("frame")
+                if key in seen and seen[key][1] != core:
+                    diff = sorted(set(core) ^ set(seen[key][1])) or sorted(k for k in core if core[k] != seen[key][1].get(k))
+                    violation(f"record-depends-on-history:DF{core.get('df')}", f"frame {key} is written with different members in scenario {seen[key][0]} and in scenario {r.name} (differing: {diff[:6]})",
+                              {"scenarios": [seen[key][0], r.name], "frame": key})
+                elif key not in seen:
+                    seen[key] = (r.name, core)
     res = {"executions": sum(len(r.sc["events"]) for r in started), "scenarios": len(started), "lines": total_lines,
            "violations": list(viol.values()), "outcomes": outcomes, "warnings": warnings, "wall_s": round(time.time() - t0, 2)}
     print(json.dumps(res))
